@@ -984,6 +984,8 @@ class list_t(object):
         
     def clear(self):
         self.get_model().clear()
+        # A list of objects keeps the objects themselves next to their models
+        self.backing_arr.clear()
 
     def __contains__(self, lhs):
         if get_expr_mode():
